@@ -14,6 +14,7 @@ import Driver.Wild
 import Driver.Config
 import Driver.C19
 import Driver.C12
+import Driver.C18
 
 open Corerad
 
@@ -26,7 +27,8 @@ def handlers : List (String × (List String → List String → Option Verdict))
   ("cfg", Driver.Config.cfg), ("fuzz", Driver.Config.fuzz),
   ("ra1", Driver.Config.ra1), ("ra3", Driver.Config.ra3), ("ra4", Driver.Config.ra4),
   ("ws", Driver.C19.ws), ("wsu", Driver.C19.wsu),
-  ("vr", Driver.C12.vr)
+  ("vr", Driver.C12.vr),
+  ("mon", Driver.C18.mon)
 ]
 
 def runLine (line : String) : String :=
